@@ -183,6 +183,9 @@ func (f *renderFont) render(l renderLayout) []byte {
 			for i, c := range cipher {
 				a.WriteByte(digits[c>>4])
 				a.WriteByte(digits[c&15])
+				if i < 1 {
+					continue // hex form is recognised by four hex digits in a row
+				}
 				if (i+1)%w == 0 {
 					a.WriteString("\n")
 				} else if l.WS == "\t" && i%7 == 3 && i > 4 {
